@@ -31,7 +31,13 @@ func genStr() *rapid.Generator[string] {
 		rapid.SampledFrom(hostileStrings),
 		rapid.String(),
 		rapid.Map(rapid.SliceOfN(rapid.Byte(), 0, 8), func(b []byte) string { return string(b) }),
-		rapid.Map(rapid.IntRange(1, 3), func(n int) string { return strings.Repeat(longString, n)[:n*1100] }),
+		rapid.Map(rapid.IntRange(1, 60), func(n int) string {
+			if n > 59 {
+				return strings.Repeat(longString, 32)[:33000] // beyond any pooled or pre-sized buffer
+			}
+			n = n%3 + 1
+			return strings.Repeat(longString, n)[:n*1100]
+		}),
 	)
 }
 
@@ -263,6 +269,18 @@ func (e *errSpec) hasFault() bool {
 }
 
 func genErrSpec(t *rapid.T, depth int, faults bool) *errSpec {
+	if depth >= 2 && rapid.IntRange(0, 39).Draw(t, "deepErrorGroup") == 0 {
+		// error groups nested far deeper than usual: causes are expanded at every level
+		n := rapid.SampledFrom([]int{5, 8, 9, 12, 40}).Draw(t, "groupDepth")
+		cur := &errSpec{Kind: "plain", Msg: "innermost"}
+		for i := n; i >= 1; i-- {
+			cur = &errSpec{Kind: "group", Msg: fmt.Sprintf("level %d", i), Kids: []*errSpec{cur}}
+			if i%3 == 0 {
+				cur.Kids = append(cur.Kids, &errSpec{Kind: "plain", Msg: "sibling"})
+			}
+		}
+		return cur
+	}
 	kinds := []string{"plain", "plain", "verbose", "plainfmt", "ptr", "detail"}
 	if depth > 0 {
 		kinds = append(kinds, "group", "group")
